@@ -248,7 +248,7 @@ theorem bank_burn_src (b b' : Bank) (src : String) (c : Coins) (d : String)
     rw [amountOf_add, amountOf_neg]; omega
 
 /-- where a state's payout goes -/
-def destAddr (e : Env) (a : Account) : Option String := if a.type = tModule then e.modAddr? a.id else some a.id
+def destAddr (e : Env) (a : Account) : Option String := if a.type = tModule then e.modAddr? a.id else some (canonAddr a.id)
 
 /-- **one payout of the code-tied model, whatever happens to it** (paid, injected fault, bank
     error, blocked or malformed destination): `main balance × 10^18 − recorded remains of that
@@ -310,7 +310,7 @@ theorem payoutOne_keeps_books (e : Env) (w w' : Distr.World) (s s' : DState) (d 
                 · cases h; rfl
                 · rename_i b hb
                   cases h
-                  have hne2 : e.mainAddr ≠ a.id := by
+                  have hne2 : e.mainAddr ≠ canonAddr a.id := by
                     intro hh; apply hd; unfold destAddr; simp [hmod, hh]
                   have := bank_send_src _ b _ _ _ d hne2 hb
                   show amountOf (b.balance e.mainAddr) d * P - amountOf (truncateDecimal s.remains).2 d = _
